@@ -2,7 +2,7 @@
 BFS over interleavings of transaction submissions (through the network handler and through add_transaction_to_pool)
 with head changes (extension, side fork, reorganisation; through relayed blocks and through set_coinstate), on one
 real node; reference pool and reference ledger in lock-step."""
-from .. import enc, ledger, refmodel, seams, simnet, world
+from .. import enc, ledger, refmodel, seams, simnet, thrscen, world
 from ..world import K, oref, owned
 
 LEVEL = 'model_checking'
@@ -345,6 +345,11 @@ def run(ctx):
                     sample = list(trace) + [nm]
         frontier = nxt
         ctx.log("depth", d + 1, "new states", len(nxt))
+    # ---- the schedule dimension: admission, head change and an observer as separate threads on the real chain manager;
+    #      and the pool after the miner thread and the networking thread raced
+    thr = thrscen.run(ctx, 'C13', 2 if ctx.quick else 3)
+    thr2 = thrscen.run(ctx, 'MN', 1 if ctx.quick else 2, only=['C13:'])
+    ctx.cov['thread_schedules'] = {'chain_manager': thr, 'miner_vs_networking': thr2}
     ctx.cov.update({
         'states': stats['states'], 'transitions': stats['transitions'], 'traces_validated_against_impl': stats['transitions'],
         'samples': [sample or []] + [list(f) for f in frontier[:2]], 'outcome_histogram': hist, 'largest_pool': maxpool,
@@ -357,6 +362,8 @@ def run(ctx):
 
 
 def replay(data, ctx):
+    if 'thread_scenario' in data:
+        return thrscen.replay(data)
     setup_worker()
     t = tuple(data['trace'])
     if data.get('probe'):
